@@ -74,7 +74,7 @@ def realness(ctx, R="R-C07-realness"):
                       "%s impulse response dtype %s vs is_real %s" % (name, astq.text(astq.kw(allocs[0].value, "dtype")) if allocs else None, real_expr))
         zp = prog.own_method(c, "is_zero_phase")
         want = "False" if name == "ComplexGammatoneFilterBank" else "True"
-        ctx.check(astq.text(astq.returns_of(zp)[0].value) == want, R, zp, zp.node, "%s.is_zero_phase is %s" % (name, want))
+        ctx.check(astq.text(astq.returns_of(zp)[0].value) == want, R, zp, zp.node, "%s.is_zero_phase is %s" % (name, want), structural=True)
 
 
 def support_sign(ctx, R="R-C07-support-sign"):
